@@ -691,11 +691,15 @@ func New() Beacon {
 	}
 }
 
-// GetAll returns all the treasures in the beacon
+// GetAll returns all the treasures in the beacon.
+// The result is a snapshot: the internal map is only valid under b.mu, and callers iterate
+// the returned map after the lock is released, while writers keep changing the beacon.
+// Handing out the internal map made that a concurrent map iteration and map write, which
+// the Go runtime answers by aborting the whole process.
 func (b *beacon) GetAll() map[string]treasure.Treasure {
 	b.mu.RLock()
 	defer b.mu.RUnlock()
-	return b.treasuresByKeys
+	return maps.Clone(b.treasuresByKeys)
 }
 
 type IterationType int
